@@ -24,7 +24,13 @@ pub fn run(_op: &str, v: &Value) -> Value {
             match name.as_str() {
                 "package" => {
                     let bytes = wat::parse_str(a[2].as_str().unwrap()).expect("wat");
-                    let p = Package::from_bytes(a[1].as_str().unwrap(), None, bytes, g.types_mut()).expect("package");
+                    // "name@1.2.3" registers the package under that version
+                    let full = a[1].as_str().unwrap();
+                    let (pname, pver) = match full.split_once('@') {
+                        Some((n, v)) => (n, Some(v.parse::<semver::Version>().expect("package version"))),
+                        None => (full, None),
+                    };
+                    let p = Package::from_bytes(pname, pver.as_ref(), bytes, g.types_mut()).expect("package");
                     match g.register_package(p) {
                         Ok(id) => {
                             pkgs.insert(a[1].as_str().unwrap().to_string(), id);
@@ -122,7 +128,8 @@ pub fn run(_op: &str, v: &Value) -> Value {
                                 h = h.wrapping_mul(0x100000001b3);
                             }
                             let text = if a.get(2).and_then(|x| x.as_bool()).unwrap_or(false) { Some(b.clone()) } else { None };
-                            (None, json!({"ok": true, "len": b.len(), "hash": format!("{h:016x}"), "bytes": text}))
+                            let (components, instances, names) = inspect(&b);
+                            (None, json!({"ok": true, "len": b.len(), "hash": format!("{h:016x}"), "bytes": text, "components": components, "instances": instances, "names": names}))
                         }
                         Err(e) => (None, json!({"err": format!("{e:#}")})),
                     }
@@ -152,4 +159,53 @@ pub fn run(_op: &str, v: &Value) -> Value {
         invs.push(json!(g.verif_invariants()));
     }
     json!({"results": results, "invariants": invs, "dump": g.verif_dump()})
+}
+
+/// top-level structure of an encoded component: number of embedded components, number of component instances created by
+/// instantiation, and the component name section as (kind, names)
+fn inspect(bytes: &[u8]) -> (usize, usize, Vec<(String, Vec<String>)>) {
+    use wasmparser::{ComponentInstance, ComponentName, Parser, Payload};
+    let mut components = 0;
+    let mut instances = 0;
+    let mut names = vec![];
+    let mut depth = 0usize;
+    for p in Parser::new(0).parse_all(bytes) {
+        let Ok(p) = p else { break };
+        match p {
+            Payload::ComponentSection { .. } | Payload::ModuleSection { .. } => {
+                if depth == 0 {
+                    if let Payload::ComponentSection { .. } = p {
+                        components += 1;
+                    }
+                }
+                depth += 1;
+            }
+            Payload::End(_) => depth = depth.saturating_sub(1),
+            Payload::ComponentInstanceSection(r) if depth == 0 => {
+                for i in r.into_iter().flatten() {
+                    if let ComponentInstance::Instantiate { .. } = i {
+                        instances += 1;
+                    }
+                }
+            }
+            Payload::CustomSection(c) if depth == 0 && c.name() == "component-name" => {
+                if let wasmparser::KnownCustom::ComponentName(r) = c.as_known() {
+                    for n in r.into_iter().flatten() {
+                        let (kind, map) = match n {
+                            ComponentName::Types(m) => ("types", m),
+                            ComponentName::Funcs(m) => ("funcs", m),
+                            ComponentName::Instances(m) => ("instances", m),
+                            ComponentName::Components(m) => ("components", m),
+                            ComponentName::CoreModules(m) => ("core_modules", m),
+                            ComponentName::Values(m) => ("values", m),
+                            _ => continue,
+                        };
+                        names.push((kind.to_string(), map.into_iter().flatten().map(|x| x.name.to_string()).collect()));
+                    }
+                }
+            }
+            _ => {}
+        }
+    }
+    (components, instances, names)
 }
